@@ -21,6 +21,14 @@ with Views() as v:
     for f in m.defined():
         fps.setdefault(f.cname, []).append(fingerprint(f))
     json.dump({k: sorted(set(x)) for k, x in sorted(fps.items())}, open(os.path.join(V, "sa", "lhsa", "known_fingerprints.json"), "w"), indent=0)
+    # struct layouts of the project's own types (for recognising a pure field rename and for 'a field the rules name is gone')
+    types = {}
+    for k, t in m.types.items():
+        if isinstance(t, dict) and t.get("k") == "struct" and t.get("fields") and not t.get("opaque") and all("name" in f for f in t["fields"]):
+            if k.startswith("%struct._IO") or k.startswith("%struct.__") or k in ("%struct.stat", "%struct.timespec", "%struct.tm", "%struct.utimbuf"):
+                continue
+            types[k] = [[f["name"], f["off"], f["ty"]] for f in t["fields"]]
+    json.dump(types, open(os.path.join(V, "sa", "lhsa", "known_types.json"), "w"), indent=0, sort_keys=True)
 names = sorted({re.sub(r"\.\d+$", "", l.split()[-1]) for l in out.splitlines() if len(l.split()) >= 2 and l.split()[-2] in ("T", "t")})
 open(os.path.join(V, "sa", "lhsa", "known_functions.txt"), "w").write("\n".join(names) + "\n")
 print(len(names), "functions")
